@@ -104,3 +104,8 @@ CHECKS["C33"] = {"pkg": "ledger", "shards": 14, "timeout_quick": 900, "timeout_t
     "technique": "property-based testing (rapid) of block synchronisation: generated delivery plans (order, duplication, loss, splitting, forgeries) through the real GiveBlocksMessage.process on a recording daemon over real visors, against a sequential reference model and a prefix-of-publisher invariant",
     "note": LN + "; blocks inside one peer message are ascending; the network is replaced by the verif hook VerifDaemon (records sends, executes blocks on the real visor)",
     "text": "A publisher chain of 3-10 blocks is delivered to a fresh follower as a generated plan of GiveBlocks messages (gaps, overlaps, duplicates, permuted message order, interleaved forged blocks). After every message the follower must equal the sequential reference model, be a block-for-block prefix of the publisher chain with valid publisher signatures, and emit AnnounceBlocks/GetBlocks for its new head; after an honest peer answers its requests it must hold exactly the longest gap-free prefix of the blocks it was given."}
+
+CHECKS["C18"] = {"pkg": "wallet", "shards": 12, "fuzz": [{"target": "FuzzC18_DecryptScrypt", "seconds": 90}, {"target": "FuzzC18_DecryptSha256Xor", "seconds": 60}],
+    "technique": "property-based testing (rapid): structured ciphertext mutation for both ciphers with a no-panic / authenticity oracle; lock/serialise/unlock round trips of every lockable wallet type with a secret-absence oracle; native fuzzing of both Decrypt functions in thorough",
+    "text": "Generated ciphertexts (valid, bit-flipped, truncated, spliced, re-checksummed, metadata length prefix and JSON fields patched to boundary values, random, empty) are decrypted with the right and a wrong password: the result must be the plaintext or an error, never a panic, and never different data. Wallets of each lockable type are locked with generated passwords: the serialised form must not contain any seed, passphrase or secret key, unlocking with the same password must restore the identical wallet, any other password must be refused.",
+    "note": "scrypt parameters inside generated metadata are capped (N<=2^14, r<=8, p<=2) to protect the harness; wallets use the fast cipher variants (sha256-xor, scrypt N=2^15)"}
